@@ -5,7 +5,7 @@ from vlib import std, lab, common, hbuild, recipes, coq, corr
 
 PID = "C14"
 META = {
-    "text": "Theorems (Properties_C14.v, closed under the global context, for EVERY date parser): etagParseInit accepts exactly [W/]DQUOTE..DQUOTE; strong/weak comparison are what RFC 7232 2.3.2 says (weak = opaque-tags equal, an equivalence; strong = weak and neither tag weak); for every list of well-formed entity-tags / `*` rendered with arbitrary OWS, commas and empty elements, Squid's list walk (strListGetItem + hasOneOfEtags) answers exactly `some listed tag matches` (proved when no opaque-tag contains a backslash: _partial; REFUTED at full RFC strength: `If-Match: \"a\\\", \"v1\"` against entity \"v1\" is answered 412 - known finding C14-backslash-etag-list); processConditional answers 304 iff the cached reply is a 200 and If-Match (if any) holds and (If-None-Match present, matches, GET/HEAD) or (If-None-Match absent, IMS > 0 parsed, 0 <= last-modified-or-timestamp <= IMS); 412 iff If-Match fails (or If-None-Match matches on a non-GET/HEAD); If-None-Match makes If-Modified-Since irrelevant; weak matching only for GET/HEAD without Range; every other outcome is a full response (hit or miss). After an origin 304 the stored header is old (+) new by field name: every non-Vary field of the 304 replaces all stored fields of that name, every other stored field is kept in order, the body is untouched, and needUpdate=false means the stored values already equal the 304's. Tie: registered-header table regenerated; extracted model diffed against the real squid (fresh-hit conditionals: status 200/206/304/412/miss; forced revalidation answered 304/200/500 by the origin: what the client gets and the headers+body of the following hit) and against src/ETag.cc + src/StrList.cc compiled from the working tree.",
+    "text": "Theorems (Properties_C14.v, closed under the global context, for EVERY date parser): etagParseInit accepts exactly [W/]DQUOTE..DQUOTE; strong/weak comparison are what RFC 7232 2.3.2 says (weak = opaque-tags equal, an equivalence; strong = weak and neither tag weak); for every list of well-formed entity-tags / `*` rendered with arbitrary OWS, commas and empty elements, Squid's list walk (strListGetItem + hasOneOfEtags) answers exactly `some listed tag matches` (proved when no opaque-tag contains a backslash: _partial; REFUTED at full RFC strength: `If-Match: \"a\\\", \"v1\"` against entity \"v1\" is answered 412 - known finding C14-backslash-etag-list); processConditional answers 304 iff the cached reply is a 200 and If-Match (if any) holds and (If-None-Match present, matches, GET/HEAD) or (If-None-Match absent, IMS > 0 parsed, 0 <= last-modified-or-timestamp <= IMS); 412 iff If-Match fails (or If-None-Match matches on a non-GET/HEAD); If-None-Match makes If-Modified-Since irrelevant; weak matching only for GET/HEAD without Range; every other outcome is a full response (hit or miss). After an origin 304 the stored header is old (+) new by field name (update() as repaired by /repo 5d5369d): every field of the 304 that is not Vary, not hop-by-hop in the registered-header table and not nominated by the 304's own Connection field replaces all stored fields of that name, no other 304 field is stored or deletes anything, every other stored field is kept in order, the body is untouched, and needUpdate=false means the stored values already equal the 304's. Tie: registered-header table regenerated; extracted model diffed against the real squid (fresh-hit conditionals: status 200/206/304/412/miss; forced revalidation answered 304/200/500 by the origin: what the client gets and the headers+body of the following hit) and against src/ETag.cc + src/StrList.cc compiled from the working tree.",
     "note": "partial: the theorems are about the transcribed functions (CondModel.v); that cacheHit/handleIMSReply apply exactly these decisions on every path rests on the end-to-end correspondence (forward-proxy GET/HEAD on memory-cached objects, -N mode). Time::ParseRfc1123, Range parsing and the entry timestamp are inputs of the model (Section variable / fields), not modelled. Squid's 200 answer to a matching If-None-Match after revalidation, and strong comparison for ranged If-None-Match, are allowed by the property ('304 only when') and are modelled as they are. Trusted: Coq kernel, extraction, gen/gen_hdrtable.cc, vlib/lab.py stubs, harness/h_cond.cc.",
     "technique": "Coq proof (induction over rendered tag lists through the quoted-string scanner; case analysis of the decision function; filter/fold reasoning for HttpHeader::update with caseless-name equivalence) + end-to-end differential correspondence of the extracted model against the running squid + unit correspondence against ETag.cc/StrList.cc + independent RFC 7232 oracle",
 }
@@ -177,7 +177,11 @@ def gen_reval(rng, k):
             if rng.random() < 0.5:
                 fresh.append([randcase(rng, "X-Foo"), "f1"])
                 if rng.random() < 0.3: fresh.append([randcase(rng, "X-Foo"), "f2"])
-            if rng.random() < 0.3: fresh.append([randcase(rng, "X-New"), "n1"])
+            if rng.random() < 0.3:
+                fresh.append([randcase(rng, "X-New"), "n1"])
+                if rng.random() < 0.35:   # nominated by the 304's own Connection field: must not be merged
+                    fresh.append(["Connection", randcase(rng, "x-new") + rng.choice(["", ", x-unrelated"])])
+            if rng.random() < 0.1: fresh.append(["Keep-Alive", "timeout=5"])
             if rng.random() < 0.2: fresh.append(["Content-Language", "de"])
             if rng.random() < 0.2: fresh.append(["Expires", "@7200"])
         else:
@@ -458,8 +462,12 @@ def oracle_reval(s, obs):
     if ost == 304:
         if bid != "old":
             return ("oracle:reval-body-changed", "body changed by a 304 revalidation: " + obs)
-        v = expect_headers("304 fields replace stored fields of the same name",
-                           lambda name: vals(fresh, name) if vals(fresh, name) else vals(old, name))
+        nominated = set()
+        for n, cv in fresh:
+            if n.lower() == "connection":
+                nominated |= set(t.strip(" \t").lower() for t in cv.split(",") if t.strip(" \t"))
+        v = expect_headers("end-to-end 304 fields replace stored fields of the same name",
+                           lambda name: vals(fresh, name) if (vals(fresh, name) and name not in nominated) else vals(old, name))
         if v:
             return v
         if w == "fwd304":
